@@ -32,6 +32,10 @@ type G1Spec struct {
 	Deadline time.Duration
 	// Check is the oracle, evaluated in every reached state.  It may destroy the world.
 	Check func(w *World, path []string) []Violation
+	// Roots (optional): the search is started from the state reached by each of these step sequences
+	// (in addition to the initial state); steps of a root are not counted against the bounds.  A root that
+	// cannot be replayed under a configuration (e.g. persister steps without a lower level) is skipped there.
+	Roots [][]string
 	// Terminal (optional) is a destructive end-of-history phase with several variants (e.g. close orders):
 	// it is called with variant 0, 1, ... on freshly replayed instances until it reports more == false.
 	Terminal func(w *World, variant int) (viols []Violation, more bool)
@@ -52,6 +56,7 @@ type g1Req struct {
 	Cfg  int      `json:"cfg"`
 	Path []string `json:"path"`
 	Only string   `json:"only,omitempty"` // expand only this step (confirmation runs)
+	Root int      `json:"root,omitempty"` // length of the root prefix of Path (not counted against the bounds)
 }
 
 type g1Succ struct {
@@ -143,7 +148,10 @@ func g1Expand(req g1Req) (resp g1Resp) {
 	sp := mk(req.Tier)
 	cfg := sp.Configs[req.Cfg]
 	debug.SetPanicOnFault(true)
-	cands := sp.candidates(req.Path)
+	if req.Root > len(req.Path) {
+		req.Root = len(req.Path)
+	}
+	cands := sp.candidates(req.Path[req.Root:])
 	if req.Only != "" {
 		if req.Only == "." { // check the state reached by Path itself
 			cands = []string{"."}
@@ -207,7 +215,7 @@ func g1Expand(req g1Req) (resp g1Resp) {
 				if sp.ExtraKey != nil {
 					key += " X=" + sp.ExtraKey(w)
 				}
-				nB, nK, nR, nH := countSteps(full)
+				nB, nK, nR, nH := countSteps(full[req.Root:])
 				key += fmt.Sprintf(" used:B%d,K%d,R%d,H%d", nB, nK, nR, nH) // remaining budgets are part of the state
 				s.Key = shortHash(key)
 				s.Heights = w.Heights()
@@ -292,6 +300,7 @@ func (w *World) CanStep(st string) bool {
 type g1Node struct {
 	cfg  int
 	path []string
+	root int
 }
 
 type g1Stats struct {
@@ -327,10 +336,13 @@ func runG1(prop, tier string) (*g1Stats, *G1Spec) {
 	var frontier []g1Node
 	// root states are checked through a "." job
 	var jobs []Job
+	roots := append([][]string{nil}, sp.Roots...)
 	for ci := range sp.Configs {
 		seen[ci] = map[string]bool{}
-		jobs = append(jobs, Job{Kind: "g1expand", Data: mustJSON(g1Req{Prop: prop, Tier: tier, Cfg: ci, Path: nil, Only: "."})})
-		frontier = append(frontier, g1Node{ci, nil})
+		for _, r := range roots {
+			jobs = append(jobs, Job{Kind: "g1expand", Data: mustJSON(g1Req{Prop: prop, Tier: tier, Cfg: ci, Path: r, Only: ".", Root: len(r)})})
+			frontier = append(frontier, g1Node{ci, r, len(r)})
+		}
 	}
 	handle := func(node g1Node, res JobResult, next *[]g1Node) {
 		cfg := sp.Configs[node.cfg]
@@ -359,6 +371,9 @@ func runG1(prop, tier string) (*g1Stats, *G1Spec) {
 			st.Infra++
 			fmt.Fprintf(os.Stderr, "INFRA: %s\n", resp.Infra)
 			return
+		}
+		if len(node.path) == node.root && node.root > 0 && len(resp.Succ) == 1 && strings.HasPrefix(resp.Succ[0].Infra, "replay divergence") {
+			return // this root does not exist under this configuration
 		}
 		for _, s := range resp.Succ {
 			full := node.path
@@ -398,15 +413,28 @@ func runG1(prop, tier string) (*g1Stats, *G1Spec) {
 				st.Samples = append(st.Samples, map[string]any{"config": cfg.String(), "path": full, "heights_top_mid_base_clean_lower": s.Heights})
 			}
 			if s.Step != "." {
-				*next = append(*next, g1Node{node.cfg, full})
+				*next = append(*next, g1Node{node.cfg, full, node.root})
 			}
 		}
 	}
 	results := pool.Run(jobs)
 	var dummy []g1Node
+	var liveRoots []g1Node
 	for i, r := range results {
-		handle(frontier[i], r, &dummy)
+		before := st.Infra
+		var resp g1Resp
+		skip := false
+		if !r.Crashed && r.Err == "" && json.Unmarshal(r.Data, &resp) == nil && len(resp.Succ) == 1 && strings.HasPrefix(resp.Succ[0].Infra, "replay divergence") && frontier[i].root > 0 {
+			skip = true
+		}
+		if !skip {
+			handle(frontier[i], r, &dummy)
+			if st.Infra == before {
+				liveRoots = append(liveRoots, frontier[i])
+			}
+		}
 	}
+	frontier = liveRoots
 	for depth := 0; depth < sp.MaxD && len(frontier) > 0; depth++ {
 		if sp.Deadline > 0 && time.Since(start) > sp.Deadline {
 			st.Exhaustive = false
@@ -415,7 +443,7 @@ func runG1(prop, tier string) (*g1Stats, *G1Spec) {
 		}
 		jobs = jobs[:0]
 		for _, n := range frontier {
-			jobs = append(jobs, Job{Kind: "g1expand", Data: mustJSON(g1Req{Prop: prop, Tier: tier, Cfg: n.cfg, Path: n.path})})
+			jobs = append(jobs, Job{Kind: "g1expand", Data: mustJSON(g1Req{Prop: prop, Tier: tier, Cfg: n.cfg, Path: n.path, Root: n.root})})
 		}
 		results := pool.Run(jobs)
 		var next []g1Node
@@ -451,14 +479,14 @@ func tail(s string, n int) string {
 // isolateCrash re-runs each candidate step of a node whose worker died, one per fresh process.
 func isolateCrash(pool *Pool, sp *G1Spec, prop, tier string, node g1Node, res JobResult) []foundViolation {
 	var out []foundViolation
-	cands := append([]string{"."}, sp.candidates(node.path)...)
+	cands := append([]string{"."}, sp.candidates(node.path[node.root:])...)
 	for _, st := range cands {
-		r := pool.RunOne(Job{Kind: "g1expand", Data: mustJSON(g1Req{Prop: prop, Tier: tier, Cfg: node.cfg, Path: node.path, Only: st})})
+		r := pool.RunOne(Job{Kind: "g1expand", Data: mustJSON(g1Req{Prop: prop, Tier: tier, Cfg: node.cfg, Path: node.path, Only: st, Root: node.root})})
 		if !(r.Crashed || r.Err != "") {
 			continue
 		}
 		// must reproduce once more to count
-		r2 := pool.RunOne(Job{Kind: "g1expand", Data: mustJSON(g1Req{Prop: prop, Tier: tier, Cfg: node.cfg, Path: node.path, Only: st})})
+		r2 := pool.RunOne(Job{Kind: "g1expand", Data: mustJSON(g1Req{Prop: prop, Tier: tier, Cfg: node.cfg, Path: node.path, Only: st, Root: node.root})})
 		if !(r2.Crashed || r2.Err != "") {
 			continue
 		}
